@@ -16,6 +16,9 @@ func GammaInc(a, x float64) float64 {
 	if a <= 0 || x < 0 || math.IsNaN(a) || math.IsNaN(x) {
 		return math.NaN()
 	}
+	if math.IsInf(x, 1) {
+		return 1
+	}
 
 	if x < a+1 {
 		// Use the series representation, which converges more
@@ -33,6 +36,9 @@ func GammaInc(a, x float64) float64 {
 func GammaIncComp(a, x float64) float64 {
 	if a <= 0 || x < 0 || math.IsNaN(a) || math.IsNaN(x) {
 		return math.NaN()
+	}
+	if math.IsInf(x, 1) {
+		return 0
 	}
 
 	if x < a+1 {
